@@ -320,7 +320,7 @@ pub fn run(prop: &str, tier: &str) -> i32 {
         let path = root.join("replays").join(&fname);
         let file = json!({
             "property": prop,
-            "engine": spec.engine,
+            "engine": engines_of(spec).join("+"),
             "class": class,
             "text": min_text,
             "batch_seed": seed,
@@ -366,7 +366,7 @@ pub fn run(prop: &str, tier: &str) -> i32 {
             "nontrivial_runs": nontrivial,
             "rule": spec.rule,
             "samples": samples,
-            "engine": spec.engine,
+            "engine": engines_of(spec).join("+"),
             "runs_per_hour": if wall > 0.0 { (runs as f64 / wall * 3600.0) as u64 } else { 0 },
             "decisions_total": decisions,
             "sim_time_ms_total": sim_ms,
@@ -377,9 +377,9 @@ pub fn run(prop: &str, tier: &str) -> i32 {
             "violations_of_other_properties_seen": foreign,
             "known_findings_seen": known_seen,
             "replay_files": replay_files,
-            "components": components(spec.engine),
+            "components": engines_of(spec).iter().map(|e| (e.to_string(), components(e))).collect::<serde_json::Map<String, Value>>(),
         },
-        "assumptions": assumptions(spec.engine),
+        "assumptions": engines_of(spec).iter().flat_map(|e| assumptions(e).as_array().cloned().unwrap_or_default()).collect::<Vec<Value>>(),
     });
     let ev_path = root.join("evidence").join(format!("{}.json", prop));
     let mut f = std::fs::File::create(&ev_path).expect("evidence file");
@@ -410,6 +410,14 @@ pub fn run(prop: &str, tier: &str) -> i32 {
         return 2;
     }
     0
+}
+
+fn engines_of(spec: &props::PropSpec) -> Vec<&'static str> {
+    if spec.mix.is_empty() {
+        vec![spec.engine]
+    } else {
+        spec.mix.iter().map(|(e, _)| *e).collect()
+    }
 }
 
 fn components(engine: &str) -> Value {
